@@ -43,3 +43,131 @@ pub fn set_clock(ms: Option<u64>) {
 pub fn tls_out_str(o: &huginn_net_tls::TlsClientOutput) -> String {
     format!("{}:{} -> {}:{} {:?}", o.source.ip, o.source.port, o.destination.ip, o.destination.port, o.sig)
 }
+
+// ---------------------------------------------------------------------------------------------
+// canonical renderings of results (several output types have no Debug)
+// ---------------------------------------------------------------------------------------------
+pub fn http_req_str(o: &huginn_net_http::HttpRequestOutput) -> String {
+    format!(
+        "REQ {}:{}->{}:{} lang={:?} browser={:?}/{:?} diag={} sig={:?}",
+        o.source.ip,
+        o.source.port,
+        o.destination.ip,
+        o.destination.port,
+        o.lang,
+        o.browser_matched.browser.as_ref().map(|b| format!("{}|{:?}|{:?}|{}", b.name, b.family, b.variant, b.kind)),
+        o.browser_matched.quality,
+        o.diagnosis,
+        o.sig
+    )
+}
+pub fn http_resp_str(o: &huginn_net_http::HttpResponseOutput) -> String {
+    format!(
+        "RESP {}:{}->{}:{} server={:?}/{:?} diag={} sig={:?}",
+        o.source.ip,
+        o.source.port,
+        o.destination.ip,
+        o.destination.port,
+        o.web_server_matched.web_server.as_ref().map(|b| format!("{}|{:?}|{:?}|{}", b.name, b.family, b.variant, b.kind)),
+        o.web_server_matched.quality,
+        o.diagnosis,
+        o.sig
+    )
+}
+pub fn http_result_strs(r: &huginn_net_http::HttpAnalysisResult) -> Vec<String> {
+    let mut v = vec![];
+    if let Some(q) = &r.http_request {
+        v.push(http_req_str(q));
+    }
+    if let Some(q) = &r.http_response {
+        v.push(http_resp_str(q));
+    }
+    v
+}
+/// TCP result parts as separate strings (empty when the result is all-None)
+pub fn tcp_result_strs(r: &huginn_net_tcp::TcpAnalysisResult) -> Vec<String> {
+    let mut v = vec![];
+    if let Some(x) = &r.syn {
+        v.push(format!("SYN {:?}", x));
+    }
+    if let Some(x) = &r.syn_ack {
+        v.push(format!("SYNACK {:?}", x));
+    }
+    if let Some(x) = &r.mtu {
+        v.push(format!("MTU {:?}", x));
+    }
+    if let Some(x) = &r.client_uptime {
+        v.push(format!("CUP {:?}", x));
+    }
+    if let Some(x) = &r.server_uptime {
+        v.push(format!("SUP {:?}", x));
+    }
+    v
+}
+pub fn unified_tcp_strs(r: &huginn_net::output::FingerprintResult) -> Vec<String> {
+    let mut v = vec![];
+    if let Some(x) = &r.tcp_syn {
+        v.push(format!("SYN {:?}", x));
+    }
+    if let Some(x) = &r.tcp_syn_ack {
+        v.push(format!("SYNACK {:?}", x));
+    }
+    if let Some(x) = &r.tcp_mtu {
+        v.push(format!("MTU {:?}", x));
+    }
+    if let Some(x) = &r.tcp_client_uptime {
+        v.push(format!("CUP {:?}", x));
+    }
+    if let Some(x) = &r.tcp_server_uptime {
+        v.push(format!("SUP {:?}", x));
+    }
+    v
+}
+pub fn unified_http_strs(r: &huginn_net::output::FingerprintResult) -> Vec<String> {
+    let mut v = vec![];
+    if let Some(q) = &r.http_request {
+        v.push(http_req_str(q));
+    }
+    if let Some(q) = &r.http_response {
+        v.push(http_resp_str(q));
+    }
+    v
+}
+
+// ---------------------------------------------------------------------------------------------
+// per-packet drivers with owned state
+// ---------------------------------------------------------------------------------------------
+pub struct HttpState {
+    pub flows: ttl_cache::TtlCache<huginn_net_http::http_process::FlowKey, huginn_net_http::http_process::TcpFlow>,
+    pub procs: huginn_net_http::http_process::HttpProcessors,
+}
+impl HttpState {
+    pub fn new(cap: usize) -> Self {
+        HttpState { flows: ttl_cache::TtlCache::new(cap), procs: huginn_net_http::http_process::HttpProcessors::new() }
+    }
+    pub fn feed(&mut self, f: &[u8], with_matcher: bool) -> Result<huginn_net_http::HttpAnalysisResult, String> {
+        use huginn_net_http::packet_parser::{parse_packet, IpPacket};
+        let m = if with_matcher { Some(huginn_net_http::SignatureMatcher::new(default_db())) } else { None };
+        match parse_packet(f) {
+            IpPacket::Ipv4(p) => huginn_net_http::process::process_ipv4_packet(&p, &mut self.flows, &self.procs, m.as_ref()).map_err(|e| e.to_string()),
+            IpPacket::Ipv6(p) => huginn_net_http::process::process_ipv6_packet(&p, &mut self.flows, &self.procs, m.as_ref()).map_err(|e| e.to_string()),
+            IpPacket::None => Err("NOT-IP".into()),
+        }
+    }
+}
+pub struct TlsState {
+    pub flows: ttl_cache::TtlCache<huginn_net_tls::FlowKey, huginn_net_tls::tls_client_hello_reader::TlsClientHelloReader>,
+}
+impl TlsState {
+    pub fn new(cap: usize) -> Self {
+        TlsState { flows: ttl_cache::TtlCache::new(cap) }
+    }
+    pub fn feed(&mut self, f: &[u8]) -> Result<Option<huginn_net_tls::TlsClientOutput>, String> {
+        use huginn_net_tls::packet_parser::{parse_packet, IpPacket};
+        match parse_packet(f) {
+            IpPacket::Ipv4(p) => huginn_net_tls::process::process_ipv4_packet(&p, &mut self.flows).map_err(|e| e.to_string()),
+            IpPacket::Ipv6(p) => huginn_net_tls::process::process_ipv6_packet(&p, &mut self.flows).map_err(|e| e.to_string()),
+            IpPacket::None => Err("NOT-IP".into()),
+        }
+    }
+}
